@@ -107,6 +107,7 @@ void cmb_resourceguard_initialize(struct cmb_resourceguard *rgp,
 
     rgp->guarded_resource = rbp;
     cmi_slist_initialize(&(rgp->observers));
+    rgp->forward = NULL;
 }
 
 void cmb_resourceguard_terminate(struct cmb_resourceguard *rgp)
@@ -236,7 +237,12 @@ bool cmb_resourceguard_signal(struct cmb_resourceguard *rgp)
                                                          struct observer_tag,
                                                          listhead);
         struct cmb_resourceguard *obs = ot->observer;
-        cmb_resourceguard_signal(obs);
+        if (obs->forward != NULL) {
+            (void)(*(obs->forward))(obs);
+        }
+        else {
+            (void)cmb_resourceguard_signal(obs);
+        }
         ohead = ohead->next;
     }
 
